@@ -10,7 +10,10 @@
 (*                     S2  if len(self.send_buffer) == 0:                                                                           *)
 (*                     S3      self.send_buffer = self.send_backlog.pop(0)                                                          *)
 (*                     S4      self.start_sending()                 selector.modify(READ | WRITE)                                   *)
-(*   handle_can_send   H1  sent = sock.send(self.send_buffer)        the transport takes 1..n bytes (0 when the buffer is empty)    *)
+(*   handle_can_send   H1  sent = sock.send(self.send_buffer)        the transport takes 1..n bytes (0 when the buffer is empty); a short  *)
+(*                                                                    write means its buffer is now full: until the selector reports the    *)
+(*                                                                    socket writable again a further send() raises BlockingIOError, which  *)
+(*                                                                    the caller (local_peer.py :213) treats as a dead connection           *)
 (*                     H2  self.send_buffer = self.send_buffer[sent:]                                                               *)
 (*                     H3  if len(self.send_buffer) == 0:                                                                           *)
 (*                     H4      if len(self.send_backlog) == 0:                                                                      *)
@@ -33,8 +36,9 @@ VARIABLES backlog,       \* send_backlog: Seq of frames
           wire,          \* bytes the transport has accepted, in order
           queued,        \* frames in the order send_message appended them (history; the order a reader of the stream must see)
           th,            \* th[t] = [pc, todo, sent]
-          lock, crashed
-vars == << backlog, buf, interest, wire, queued, th, lock, crashed >>
+          lock, crashed,
+          full           \* the transport's buffer is full (the last send() was a short write and no writable event has been reported since)
+vars == << backlog, buf, interest, wire, queued, th, lock, crashed, full >>
 Threads == {"net", "miner"}
 None == "none"
 Bytes(f) == [i \in 1..Lens[f] |-> << f, i >>]
@@ -45,7 +49,7 @@ IsPrefix(a, b) == Len(a) <= Len(b) /\ SubSeq(b, 1, Len(a)) = a
 
 Init == /\ backlog = << >> /\ buf = << >> /\ interest = FALSE /\ wire = << >> /\ queued = << >>
         /\ th = [t \in Threads |-> [pc |-> "idle", todo |-> IF t = "net" THEN NetFrames ELSE MinerFrames, sent |-> 0]]
-        /\ lock = None /\ crashed = FALSE
+        /\ lock = None /\ crashed = FALSE /\ full = FALSE
 
 Goto(t, p) == th' = [th EXCEPT ![t].pc = p]
 Finish(t) == /\ th' = [th EXCEPT ![t].pc = "idle"] /\ lock' = IF Locked THEN None ELSE lock
@@ -53,47 +57,52 @@ Finish(t) == /\ th' = [th EXCEPT ![t].pc = "idle"] /\ lock' = IF Locked THEN Non
 (* ---- send_message, thread t ---- *)
 BeginSend(t) == /\ th[t].pc = "idle" /\ th[t].todo # << >> /\ ~crashed
                 /\ (Locked => lock = None) /\ lock' = IF Locked THEN t ELSE lock
-                /\ Goto(t, "S1") /\ UNCHANGED << backlog, buf, interest, wire, queued, crashed >>
+                /\ Goto(t, "S1") /\ UNCHANGED << backlog, buf, interest, wire, queued, crashed, full >>
 S1(t) == /\ th[t].pc = "S1"
          /\ backlog' = Append(backlog, Head(th[t].todo)) /\ queued' = Append(queued, Head(th[t].todo))
          /\ th' = [th EXCEPT ![t].pc = "S2", ![t].todo = Tail(th[t].todo)]
-         /\ UNCHANGED << buf, interest, wire, lock, crashed >>
+         /\ UNCHANGED << buf, interest, wire, lock, crashed, full >>
 S2(t) == /\ th[t].pc = "S2"
          /\ IF buf = << >> THEN Goto(t, "S3") /\ UNCHANGED lock ELSE Finish(t)
-         /\ UNCHANGED << backlog, buf, interest, wire, queued, crashed >>
+         /\ UNCHANGED << backlog, buf, interest, wire, queued, crashed, full >>
 S3(t) == /\ th[t].pc = "S3"
          /\ IF backlog = << >>
             THEN /\ crashed' = TRUE /\ Finish(t) /\ UNCHANGED << backlog, buf >>        \* pop from an empty list: IndexError
             ELSE /\ buf' = Bytes(Head(backlog)) /\ backlog' = Tail(backlog) /\ Goto(t, "S4") /\ UNCHANGED << lock, crashed >>
-         /\ UNCHANGED << interest, wire, queued >>
+         /\ UNCHANGED << interest, wire, queued, full >>
 S4(t) == /\ th[t].pc = "S4" /\ interest' = TRUE /\ Finish(t)
-         /\ UNCHANGED << backlog, buf, wire, queued, crashed >>
+         /\ UNCHANGED << backlog, buf, wire, queued, crashed, full >>
 
 (* ---- handle_can_send, network thread only ---- *)
 BeginCanSend == /\ th["net"].pc = "idle" /\ interest /\ ~crashed
                 /\ (Locked => lock = None) /\ lock' = IF Locked THEN "net" ELSE lock
+                /\ full' = FALSE                                           \* the selector reported the socket writable
                 /\ Goto("net", "H1") /\ UNCHANGED << backlog, buf, interest, wire, queued, crashed >>
 H1 == /\ th["net"].pc = "H1"
-      /\ \E k \in (IF buf = << >> THEN {0} ELSE 1..Min(Len(buf), MaxChunk)) :
-            /\ wire' = wire \o SubSeq(buf, 1, k)
-            /\ th' = [th EXCEPT !["net"].pc = "H2", !["net"].sent = k]
-      /\ UNCHANGED << backlog, buf, interest, queued, lock, crashed >>
+      /\ IF full /\ buf # << >>
+         THEN /\ crashed' = TRUE /\ Finish("net") /\ UNCHANGED << wire, full >>       \* BlockingIOError: the connection is dropped
+         ELSE /\ \E k \in (IF buf = << >> THEN {0} ELSE 1..Min(Len(buf), MaxChunk)) :
+                    /\ wire' = wire \o SubSeq(buf, 1, k)
+                    /\ th' = [th EXCEPT !["net"].pc = "H2", !["net"].sent = k]
+                    /\ full' = (k < Len(buf))
+              /\ UNCHANGED << lock, crashed >>
+      /\ UNCHANGED << backlog, buf, interest, queued >>
 H2 == /\ th["net"].pc = "H2"
       /\ buf' = SubSeq(buf, Min(th["net"].sent, Len(buf)) + 1, Len(buf)) /\ Goto("net", "H3")
-      /\ UNCHANGED << backlog, interest, wire, queued, lock, crashed >>
+      /\ UNCHANGED << backlog, interest, wire, queued, lock, crashed, full >>
 H3 == /\ th["net"].pc = "H3"
       /\ IF buf = << >> THEN Goto("net", "H4") /\ UNCHANGED lock ELSE Finish("net")
-      /\ UNCHANGED << backlog, buf, interest, wire, queued, crashed >>
+      /\ UNCHANGED << backlog, buf, interest, wire, queued, crashed, full >>
 H4 == /\ th["net"].pc = "H4"
       /\ Goto("net", IF backlog = << >> THEN "H5" ELSE "H6")
-      /\ UNCHANGED << backlog, buf, interest, wire, queued, lock, crashed >>
+      /\ UNCHANGED << backlog, buf, interest, wire, queued, lock, crashed, full >>
 H5 == /\ th["net"].pc = "H5" /\ interest' = FALSE /\ Finish("net")
-      /\ UNCHANGED << backlog, buf, wire, queued, crashed >>
+      /\ UNCHANGED << backlog, buf, wire, queued, crashed, full >>
 H6 == /\ th["net"].pc = "H6"
       /\ IF backlog = << >>
          THEN /\ crashed' = TRUE /\ Finish("net") /\ UNCHANGED << backlog, buf >>
          ELSE /\ buf' = Bytes(Head(backlog)) /\ backlog' = Tail(backlog) /\ Goto("net", "H1") /\ UNCHANGED << lock, crashed >>
-      /\ UNCHANGED << interest, wire, queued >>
+      /\ UNCHANGED << interest, wire, queued, full >>
 
 StepOf(t) == BeginSend(t) \/ S1(t) \/ S2(t) \/ S3(t) \/ S4(t)
              \/ (t = "net" /\ (BeginCanSend \/ H1 \/ H2 \/ H3 \/ H4 \/ H5 \/ H6))
@@ -115,5 +124,7 @@ I_NoStall == (Idle /\ Pending) => interest
 (* when nothing can happen any more, everything queued has been written *)
 I_AllWritten == (Idle /\ ~interest /\ (\A t \in Threads : th[t].todo = << >>)) => wire = Flat(queued)
 I_NoCrash == ~crashed
+(* the node never writes to a transport that has just told it (by a short write) that it is full *)
+I_NeverSendsWhenFull == ~(th["net"].pc = "H1" /\ full /\ buf # << >>)
 I_Lock == Locked => \A t \in Threads : (th[t].pc # "idle") => lock = t
 =============================================================================
